@@ -49,6 +49,7 @@ Local Arguments put_bundler {P D}.
 Local Arguments any_bundling {P D}.
 Local Arguments add_status {P D}.
 Local Arguments request_pause {P D}.
+Local Arguments request_pause_in_task {P D}.
 Local Arguments finish_read {P D}.
 Local Arguments mark_cached {P D}.
 Local Arguments exec_cmd {P D}.
@@ -393,6 +394,14 @@ Proof.
   - inversion H; subst. split; [apply eqv_HQ; exact E1|]. destruct E1 as (a1&a2&a3&a4&a5&a6&a7). exact a6.
 Qed.
 
+Lemma request_pause_in_task_HQ (s : st) d s' e o : request_pause_in_task s d = (s', e, o) -> HQ s s' o /\ pc s' = pc s.
+Proof.
+  unfold request_pause_in_task. destruct (request_pause s d) as [[s1 e1] o1] eqn:E.
+  apply request_pause_HQ in E. intros H; inversion H; subst; clear H.
+  destruct (resumable s); [exact E|]. destruct E as (((a1&a2&a3&a4)&q&t&p)&c).
+  split; [|exact c]. apply HQ_of_parts; assumption.
+Qed.
+
 Lemma finish_read_HQ (s : st) run d z o0 s' c o : finish_read s run d z o0 = (s', c, o) -> eqv s s' /\ o = o0.
 Proof.
   unfold finish_read. intros H. repeat bm_hyp H; inversion H; subst; split; try reflexivity; repeat split.
@@ -415,7 +424,7 @@ Ltac pure_goal :=
 Lemma exec_cmd_HQ (s : st) m s' c o : exec_cmd dev s m = (s', c, o) -> HQ s s' o /\ pc s' = pc s.
 Proof.
   unfold exec_cmd. intros H. destruct (mcmd m) eqn:Em.
-  6: { destruct (request_pause s defer) as [[s1 e] o1] eqn:E. inversion H; subst. eapply request_pause_HQ; eassumption. }
+  6: { destruct (request_pause_in_task s defer) as [[s1 e] o1] eqn:E. inversion H; subst. eapply request_pause_in_task_HQ; eassumption. }
   20: { destruct (call_pausables dev s MResume) as [[s1 e] o1] eqn:E. inversion H; subst. apply call_pausables_HQ in E.
         destruct E as (E & _ & E2 & _). split; assumption. }
   all: unfold dcall, finish_read in H.
